@@ -126,7 +126,7 @@ func inPkgs(fn *ssa.Function, pkgs ...string) bool {
 func init() {
 	register(&Property{
 		ID:    "C02",
-		Rules: []string{"C02-R1", "C02-R2", "C02-R3", "C02-R4", "C02-R5", "C02-R6", "C02-R7", "C02-R8", "C02-R9", "C15-R1", "C06-R1", "C01-R1", "C01-R4", "C01-R5", "C07-R6", "C15-R12", "C15-R13", "C02-R10"},
+		Rules: []string{"C02-R1", "C02-R2", "C02-R3", "C02-R4", "C02-R5", "C02-R6", "C02-R7", "C02-R8", "C02-R9", "C15-R1", "C06-R1", "C01-R1", "C01-R4", "C01-R5", "C07-R6", "C15-R12", "C15-R13", "C02-R10", "C16-R11"},
 		Explain: "Decides the accounting shape of the register: C02-R10 no iteration of a loop in the reporting code is cut short by a test on a floating-point amount (rows and contributions exist whatever the amount: zero, tiny or negative); C02-R1 at the register's expansion sites (template path via GetReportItem, the old reporter, the single-element and group-by-food forms) found → quantity x each resolved element under the element's name, not found → the food itself with its own quantity, and the same pair goes to the day's accumulator in the same branch; " +
 			"C02-R2 Accumulator.Add over sign(val) x exists routes negative values to the Negative slot and others to Positive, += for an existing key; " +
 			"C02-R3 the day's totals are listed through collect-then-sort on the element name; C02-R4 the constant register and summary templates are well-typed against the report item they are executed with (field paths exist, functions and arities match, numbers go through formatValue); C02-R5 NewLogNodeFromElements merges repeated foods of a day by name in first-appearance position; " +
@@ -134,6 +134,7 @@ func init() {
 			"C01-R1/R4/R5 (shared with C01) the resolved element lists the quantities are multiplied with are built by merge-by-name only, so each resolved element appears once. Shared: C07-R6 every reporter's Process leaves its loops over the day's entries only at the head, on a set error or with an error value; C15-R12 the only arithmetic on register values outside the accumulator is positive + negative of one name; C15-R13 every flag of a lineage level is asked for on every level.",
 		NotDecided: "the arithmetic, the exact text layout, that every selected day appears in file order (C06/C12)",
 		Run: func(c *core.Ctx) {
+			ruleEnvBoolFlags(c, "C16-R11") // a display switch preset from the environment is read by its value
 			ruleNoAmountSkips(c, "C02-R10", func(p string) bool { return strings.HasPrefix(p, core.CmdPath) })
 			ruleNoFlagSkipped(c, "C15-R13")
 			ruleSumOfRegisters(c, "C15-R12")
